@@ -213,6 +213,8 @@ def run(ctx):
 
     # ---- R9 the JSON text is what serde_json wrote / what the user supplied
     json_text_rule(ctx, "C06.R9", [ctx.cli, ctx.wasm, core])
+    whole_stdin_rule(ctx, "C06.R11", ctx.cli)
+    heap_allocation_rule(ctx, "C06.R12", core)
 
     # ---- R5 reserved function-object key is one literal (shared with C05.L8)
     ctx.rule("C06.R5", "the function-object key probed by from_json and inserted by to_json is one and the same string literal", floor=3)
@@ -342,7 +344,21 @@ def json_text_rule(ctx, rid, crates):
                     for x in H.walk(f["body"]):
                         if isinstance(x, dict) and x.get("k") == "Let" and x.get("init") is not None and any(H.path_local(y) in derived for y in H.walk(x["init"]) if H.kind(y) == "Path"):
                             derived |= set(H.pat_binds(x["pat"]))
+                # ... and the parameter of a closure mapped over the call's result (`to_string(..).map(|json| ..)`)
+                for x in H.walk(f["body"]):
+                    if H.kind(x) == "MethodCall" and x["name"] in ("map", "and_then", "map_or", "map_or_else", "inspect") and any(any(y is s_ for y in H.walk(x["recv"])) for s_ in sers):
+                        for a_ in x["args"]:
+                            if H.kind(H.strip(a_)) == "Closure":
+                                for p_ in H.strip(a_)["params"]:
+                                    derived |= set(H.pat_binds(p_))
                 bad = []
+                # a function of these crates that takes the text and hands back a text: the written document is then the helper's, not serde_json's
+                for x in H.walk(f["body"]):
+                    if H.kind(x) == "Call" and (x.get("def") or "").split("::")[0] in ("blots", "blots_core", "blots_wasm"):
+                        hf_ = cr.hir.get(x["def"]) or {}
+                        out_ = hf_.get("output") or ""
+                        if ("String" in out_ or "Cow<" in out_ or "Vec<u8>" in out_) and any(H.path_local(y) in derived for a_ in x["args"] for y in H.walk(a_) if H.kind(y) == "Path"):
+                            bad.append("%s() at %s" % (H.last(x["def"]), H.loc(x)))
                 for x in H.walk(f["body"]):
                     if H.kind(x) == "MethodCall" and x["name"] in REWRITE:
                         r = H.strip(x["recv"])
@@ -377,3 +393,58 @@ def to_json_number_rule(ctx, rid, core):
                     conds += [y["name"] for y in H.walk(x["cond"]) if H.kind(y) == "MethodCall"] + [y["op"] for y in H.walk(x["cond"]) if H.kind(y) == "Binary" and y["op"] in ("Eq", "Ne", "Lt", "Le", "Gt", "Ge")]
         other = sorted(set(c for c in conds if c not in FIN))
         ctx.inst(rid, "to_json#Number", not other, "conditions that select how a number is written: %s (anything but a finiteness test sends some finite numbers - subnormals, large magnitudes - down a different path)" % (sorted(set(conds)) or "none"), H.loc(num_arms[0]["body"]))
+
+
+def whole_stdin_rule(ctx, rid, cli, declare=True):
+    """the piped document is read to its end: Read::read_to_string / read_to_end directly on Stdin (or its lock). A single `read`
+    returns what one pipe write delivered; a `take` silently cuts the document"""
+    if declare:
+        ctx.rule(rid, "the piped inputs document is read to its end, directly from stdin: every non-interactive read of stdin in the CLI is read_to_string / read_to_end on Stdin or its lock - a single Read::read (whatever the pipe delivered first), a Read::take bound or a chunked reader in between makes the inputs depend on how the producer wrote them", floor=1)
+    n_ok = 0
+    for fname, f in sorted(cli.mir.items()):
+        fn = M.Fn(f, fname)
+        for b in fn.call_blocks():
+            c = fn.callee(b) or ""
+            tys = " ".join(fn.term(b).get("argtys") or [])
+            if not re.search(r"io::(stdio::)?Stdin", c + " " + tys):
+                continue
+            if re.search(r"::(read_to_string|read_to_end)$", c):
+                direct = not re.search(r"Take<|Chain<|BufReader<", c + " " + tys)
+                n_ok += 1 if direct else 0
+                ctx.inst(rid, "%s#%s" % (fname, H.last(c)), direct, "stdin is read to the end through %s" % c, fn.loc())
+            elif re.search(r"as std::io::Read>::(read|read_exact|read_buf|take|bytes|chain|read_vectored)$", c):
+                ctx.inst(rid, "%s#%s" % (fname, H.last(c)), False, "stdin is read with %s: the program sees a prefix of the piped document (whatever one read returns / at most the bound), silently" % c, fn.loc())
+    ctx.inst(rid, "stdin#read-to-end", n_ok >= 1, "%d read_to_string / read_to_end call(s) directly on stdin" % n_ok, None)
+
+
+def heap_allocation_rule(ctx, rid, core):
+    """every value that is put on the heap gets a cell of its own holding exactly what was handed over"""
+    ctx.rule(rid, "Heap::insert_string / insert_list / insert_record / insert_lambda each allocate unconditionally: one straight-line call of Heap::insert with the argument wrapped in its own HeapValue variant, the pointer made from the index that call returned (a cache or shortcut in front of the allocation makes two different values share a cell); and no character is narrowed to a byte anywhere in the core (`c as u8` identifies characters 256 apart)", floor=5)
+    for nm, var in (("insert_string", "String"), ("insert_list", "List"), ("insert_record", "Record"), ("insert_lambda", "Lambda")):
+        f = core.hir.get("blots_core::heap::Heap::" + nm)
+        if f is None or f.get("body") is None:
+            ctx.inst(rid, "Heap::%s" % nm, None, "function not found", None)
+            continue
+        body = f["body"]
+        branches = [H.kind(x) for x in H.walk(body) if H.kind(x) in ("If", "Match", "Ret", "Loop", "While", "For")]
+        ins = [x for x in H.walk(body) if H.kind(x) == "MethodCall" and x.get("def") == "blots_core::heap::Heap::insert"]
+        pn = H.pat_binds(f["params"][1])[0] if len(f["params"]) > 1 and H.pat_binds(f["params"][1]) else None
+        arg_ok = len(ins) == 1 and H.kind(H.strip(ins[0]["args"][0])) == "Call" and (H.path_def(H.strip(ins[0]["args"][0])["f"]) or "").endswith("HeapValue::" + var) and H.path_local(H.strip(ins[0]["args"][0])["args"][0]) == pn
+        if branches:
+            ctx.inst(rid, "Heap::%s" % nm, False, "the allocation is conditional (%s): some values do not get their own cell" % sorted(set(branches)), H.loc(body))
+        else:
+            ctx.inst(rid, "Heap::%s" % nm, True if arg_ok else None, "straight-line; one Heap::insert of HeapValue::%s(%s): %s" % (var, pn, arg_ok), H.loc(body))
+    fi = core.hir.get("blots_core::heap::Heap::insert")
+    if fi is not None and fi.get("body") is not None:
+        br = [H.kind(x) for x in H.walk(fi["body"]) if H.kind(x) in ("If", "Match", "Ret", "Loop", "While", "For")]
+        push = [x for x in H.walk(fi["body"]) if H.kind(x) == "MethodCall" and x["name"] == "push"]
+        ctx.inst(rid, "Heap::insert", False if br else (True if len(push) == 1 else None), "straight-line push of the value: %s" % (not br and len(push) == 1), H.loc(fi["body"]))
+    n_c = 0
+    for d, f in sorted(core.hir.items()):
+        if f.get("body") is None or "::tests::" in d:
+            continue
+        for x in H.walk(f["body"]):
+            if H.kind(x) == "Cast" and x.get("ty") in ("u8", "i8") and (H.strip(x["e"]).get("ty") or "") == "char" and not (x.get("sp") and x["sp"][5]):
+                n_c += 1
+                ctx.inst(rid, "%s#char-as-byte" % d.replace("blots_core::", ""), False, "a character is narrowed to a byte at %s: code points 256 apart become the same value" % H.loc(x), H.loc(x))
+    ctx.inst(rid, "char-as-byte#none", n_c == 0, "casts from char to u8/i8 in the core: %d" % n_c, None)
